@@ -1,7 +1,7 @@
 """C04  A failing step never yields a successful run. (composition of the funnel contracts and the commit-order contracts)"""
 from contracts.common import Item
 from contracts import base as BA, streams as S, dumpers as DM
-from contracts import C18 as K18
+from contracts import C18 as K18, C16 as K16
 
 TRUSTED = ['T1 pyvc model of Python (DESIGN 3)', 'T16 z3 / cvc5']
 ASSUMPTIONS = ['exceptions are instances of Exception (KeyboardInterrupt / SystemExit / GeneratorExit are out of scope)']
@@ -11,8 +11,10 @@ ITEMS = [
     Item('safe_process', BA.sym_safe_process, [], BA.B + 'datastream_processor.py::DataStreamProcessor.safe_process'),
     Item('process-results', BA.sym_process_results, [], BA.B + 'datastream_processor.py::DataStreamProcessor.process'),
     Item('_process', BA.sym__process, [], BA.B + 'datastream_processor.py::DataStreamProcessor._process'),
+    Item('iterable_loader.row-stream', K16.sym_appenders, [], 'dataflows/helpers/iterable_loader.py::iterable_loader.process_resources'),
     Item('iterable_loader.errors', BA.sym_iterable_loader_errors, [], 'dataflows/helpers/iterable_loader.py::iterable_loader.handle_iterable'),
-    Item('pipelines', None, [('fault-injection', BA.nat_fault_injection), ('no-commit-after-failure', BA.nat_commit_after_failure)], None),
+    Item('pipelines', None, [('fault-injection', BA.nat_fault_injection), ('no-commit-after-failure', BA.nat_commit_after_failure),
+                              ('source-failures', BA.nat_source_failures)], None),
     Item('parallelize.producer', lambda vc: K18.sym_producer(vc, check_error_propagation=True), [], K18.PZ + '::producer'),
     Item('stream.func', S.sym_stream_func, [], 'dataflows/processors/stream.py::stream.func'),
     Item('stream.res_writer', S.sym_res_writer, [], 'dataflows/processors/stream.py::stream.res_writer'),
